@@ -84,7 +84,7 @@ EndMatch(i, o) ==
 
 ObsMatch(o) ==
   /\ Len(chan) = o.chanlen
-  /\ active = SeqToSet(o.active)
+  /\ Live(active) = SeqToSet(o.active) \ SeqToSet(o.closed)   \* closed members awaiting the purge: don't-care
   /\ closedPeers = SeqToSet(o.closed)
   /\ nextPeer - 1 = o.created
   /\ catches = o.catches
